@@ -244,6 +244,24 @@ BAD_LOG = [("ignoring forall", "quantifier dropped by back end"),
 
 
 def run_job(job, tier, verbose=False, keep=None):
+    """run_job_once + one fallback: ordinal function-pointer restrictions (f.function_pointer_call.N/targets) go stale when
+    an edit adds or removes an indirect call in f. Instead of giving up (exit 2) the job is re-run without the
+    restrictions of that function (slower, same verdict semantics)."""
+    r = run_job_once(job, tier, verbose, keep)
+    if r["status"] == "error" and job.get("restrict_fp") and r.get("error"):
+        m = re.search(r"[`'\s]([A-Za-z_][A-Za-z0-9_]*)\.function_pointer_call\.\d+", r["error"])
+        if m and ("restrict-function-pointer failed" in r["error"] or "function pointer restriction of the job" in r["error"]):
+            fn = m.group(1)
+            j2 = dict(job)
+            j2["restrict_fp"] = [x for x in job["restrict_fp"] if not x.startswith(fn + ".")]
+            if len(j2["restrict_fp"]) != len(job["restrict_fp"]):
+                r2 = run_job_once(j2, tier, verbose, keep)
+                r2["note"] = "function-pointer restrictions of %s were stale (call sites changed) and were dropped for this run" % fn
+                return r2
+    return r
+
+
+def run_job_once(job, tier, verbose=False, keep=None):
     """Returns a dict describing what happened. Never raises for verification failures."""
     t0 = time.time()
     work = tempfile.mkdtemp(prefix="ksi-vp-%s-" % job["id"].replace("/", "_"))
